@@ -14,11 +14,17 @@ TRUSTED_BASE = [
 COMMON_RULE = (
     "configurations: std = default features + serde + serde_repr, debug profile with overflow checks; rel = the same in "
     "cargo's release profile (optimised, no debug assertions, no overflow checks); nostd = --no-default-features; "
-    "nostdrel = no default features + release; nostdserde = serde + serde_repr without std. "
+    "nostdrel = no default features + release; nostdserde = serde + serde_repr without std; miri_i686 / miri_s390x "
+    "(thorough tier) = the no-default-features harness interpreted by Miri for a 32-bit / a big-endian target on the "
+    "cross-target generator XT. Message-level tags: implementors raw, structured, Getters (three getters only), Tuple "
+    "(+to_bytes), Overrider (overrides from_bytes / from_other in terms of other provided methods), and &M if the crate "
+    "implements the trait for references. "
     "Scanner histories (all tags that feed scanners): messages as raw / structured / third-party implementors; scanners "
     "created by new(), Default::default() (kinds 10-12, op 8, negative timeout); resets repeated 1..65537 times (2^32 "
     "in the thorough tier of C14, optimised build); one block of 1-4 operations repeated 254-258 times in one of 30 "
-    "histories; op 9 = the previous operation again 70000 (optimised builds: 2^24+5) times; values and controller numbers "
+    "histories; op 9 = the previous operation again 70000 (optimised builds: 2^24+5) times, every count 65529..65541, "
+    "and 2^32+5 times in the thorough tier (optimised build); marker 11 = a block of two operations 65534..65539 times "
+    "between two observed copies; values and controller numbers "
     "sometimes taken from other fields of the same history; system and non-CC messages with construct-like data bytes; "
     "polling scanner on the mock clock with timeouts {0,1,5,1000 ns, 1 ms, 10 ms, 1.234567891 s, 60 s, 2^60 ns, 2^55 s, "
     "2^64+1 ns, Duration::MAX, Default} and time steps around the timeout at ns resolution and whole seconds / "
